@@ -192,7 +192,25 @@ def gen_grid(rng, it):
     n = _limit_atoms(rng, r, pbc, 40)
     rel = [[rng.randint(0, 8) / 8 for _ in range(3)] for _ in range(n)]       # faces included (0 and 1)
     pos = np.array(rel).reshape(-1, 3) @ v + np.array(origin)
-    return _case(v, origin, pos, pbc, cutoff, 'grid', rng.randint(1, 25), rng.randint(1, 25))
+    case = _case(v, origin, pos, pbc, cutoff, 'grid', rng.randint(1, 25), rng.randint(1, 25))
+    if it % 5 == 3:
+        case['dtype'] = 'float32'                     # multiples of 1/32 below 2^7: exact in float32
+    elif it % 5 == 4:
+        # integer cell, integer coordinates, stored as int64
+        Li = [rng.randint(2, 5) for _ in range(3)]
+        vi = np.diag(Li).astype(float)
+        if it % 2:
+            vi[1, 0] = rng.randint(-2, 2)
+            vi[2, 1] = rng.randint(-2, 2)
+        oi = [float(rng.randint(-3, 3)) for _ in range(3)]
+        rel = [[rng.randint(0, Li[k]) for k in range(3)] for _ in range(n)]         # faces included
+        pts = [[r[k] + oi[k] for k in range(3)] for r in rel]
+        if it % 2:
+            # keep the points inside the tilted cell: use whole cell-vector fractions that stay integral
+            pts = [(np.array([rng.choice([0, 1]) for _ in range(3)]) @ vi + np.array(oi)).tolist() for _ in range(n)]
+        case = _case(vi, oi, pts, pbc, rng.choice([1.0, 1.5, 2.0, 2.5]), 'grid', rng.randint(1, 25), rng.randint(1, 25))
+        case['dtype'] = 'int64'
+    return case
 
 
 def gen_hunt(rng, it):
@@ -255,6 +273,147 @@ def gen_outside(rng, it):
     return case
 
 
+def _inside_rel(rel):
+    """relative coordinates clipped into the closed cell."""
+    return [[min(max(float(x), 0.0), 1.0) for x in r] for r in rel]
+
+
+def gen_dense(rng, it):
+    """more than 40 real + ghost atoms in ONE cutoff-sized bin (the bin table, 41 slots at the start, has to grow,
+    often several times) and coordination numbers far above initialsize (the per-atom rows grow many times)."""
+    np = _np()
+    mode = it % 5
+    kind = ('orth', 'tilt', 'gen')[(it // 5) % 3]
+    pbc = ALL_PBC[(it // 2) % 8]
+    init, delta = rng.choice([(1, 1), (2, 3), (5, 3), (20, 10), (rng.randint(1, 25), rng.randint(1, 25))])
+    origin = [rng.uniform(-5, 5) for _ in range(3)] if it % 4 else [0.0, 0.0, 0.0]
+    if mode in (0, 1, 2):
+        # one to three clusters (each narrower than a bin) in a cell much wider than the cutoff
+        v = _rand_cell(rng, kind) * rng.uniform(1.5, 2.5)
+        w = min(_widths(v))
+        cutoff = rng.uniform(0.13, 0.3) * w
+        inv = np.linalg.inv(v)
+        ncl = 1 if mode == 0 else rng.randint(2, 3)
+        sizes = [rng.randint(42, 75)] if mode == 0 else [rng.randint(22, 48) for _ in range(ncl)]
+        first = [rng.choice([0.02, 0.5, 0.97, rng.random()]) for _ in range(3)]
+        rel = []
+        for c in range(ncl):
+            if c == 0:
+                cen = np.array(first) @ v
+            else:       # next cluster about one cutoff away: neighbouring bin, pairs across the bin edge
+                d = np.array([rng.gauss(0, 1) for _ in range(3)])
+                cen = np.array(first) @ v + d / np.linalg.norm(d) * cutoff * rng.uniform(0.6, 1.1)
+            spread = rng.uniform(0.25, 0.95) * cutoff
+            for _ in range(sizes[c]):
+                p = cen + np.array([rng.uniform(-0.5, 0.5) * spread for _ in range(3)])
+                rel.append((p @ inv).tolist())
+        rel = _inside_rel(rel)
+        rng.shuffle(rel)
+        pos = np.array(rel) @ v + np.array(origin)
+        return _case(v, origin, pos, pbc, cutoff, 'float', init, delta)
+    if mode == 3:
+        # small periodic cell, cutoff around / above the cell widths: the ghosts fill the bins
+        v = _rand_cell(rng, kind) * 0.5
+        w = min(_widths(v))
+        cutoff = rng.uniform(0.85, 1.6) * w
+        pbc = rng.choice([(True, True, True), (True, True, True), (True, True, False), (False, True, True),
+                          (True, False, True)])
+        n = rng.randint(8, 26)
+        rel = [[rng.random() for _ in range(3)] for _ in range(n)]
+        pos = np.array(rel) @ v + np.array(origin)
+        return _case(v, origin, pos, pbc, cutoff, 'float', init, delta)
+    # mode 4: dyadic grid, 45-80 atoms (coincident ones included) in a 2 x 2 x 2 corner region, cutoff 2.5 / 3:
+    # ties decided exactly
+    q = 4
+    L = [rng.randint(24, 40) / q for _ in range(3)]
+    v = np.diag(L)
+    if it % 2:
+        v[1, 0] = rng.randint(-8, 8) / q
+        v[2, 1] = rng.randint(-8, 8) / q
+    origin = [rng.randint(-8, 8) / q for _ in range(3)]
+    base = [rng.choice([0.0, 1.0, 3.0]) for _ in range(3)]
+    n = rng.randint(45, 80)
+    pts = [[base[k] + rng.randint(0, 8) / 4 for k in range(3)] for _ in range(n)]
+    pos = np.array(pts) + np.array(origin) + (0.25 * v[1] + 0.25 * v[2]) * (it % 2)
+    return _case(v, origin, pos, pbc, rng.choice([2.5, 3.0]), 'grid', init, delta)
+
+
+def _shortest_combo(v, pbc):
+    """length of the shortest non-zero lattice vector among the shifts -1, 0, 1 along the periodic directions."""
+    np = _np()
+    best = None
+    rs = [(-1, 0, 1) if p else (0,) for p in pbc]
+    for x in rs[0]:
+        for y in rs[1]:
+            for z in rs[2]:
+                if (x, y, z) != (0, 0, 0):
+                    m = float(np.linalg.norm(x * v[0] + y * v[1] + z * v[2]))
+                    best = m if best is None else min(best, m)
+    return best
+
+
+def gen_shear(rng, it):
+    """strongly sheared / non-reduced / flat cells (tilt factors far beyond half a cell edge, so that combinations
+    such as b - a or c - b + a are shorter than every cell edge), cutoffs around half the shortest lattice vector."""
+    np = _np()
+    mode = it % 4
+    grid = mode == 3
+    q = 4
+    if grid:
+        L = [rng.randint(6, 20) / q for _ in range(3)]
+    else:
+        L = [rng.uniform(2.0, 9.0) for _ in range(3)]
+        if rng.random() < 0.4:
+            L[rng.randrange(3)] *= rng.choice([0.35, 0.5, 2.5])           # flat or needle-like
+    v = np.diag(L)
+    if mode == 0 or grid:
+        # LAMMPS-form cell with large tilt factors
+        def tilt(length):
+            f = rng.choice([rng.uniform(0.5, 1.0), rng.uniform(1.0, 2.5), rng.uniform(0.0, 0.5)]) * rng.choice([1, -1])
+            return round(f * length * q) / q if grid else f * length
+        v[1, 0] = tilt(L[0])
+        v[2, 0] = tilt(L[0]) if rng.random() < 0.7 else 0.0
+        v[2, 1] = tilt(L[1]) if rng.random() < 0.7 else 0.0
+    else:
+        # mildly tilted cell re-expressed in a non-reduced basis: rows replaced by integer combinations
+        v[1, 0] = rng.uniform(-0.5, 0.5) * L[0]
+        v[2, 0] = rng.uniform(-0.5, 0.5) * L[0]
+        v[2, 1] = rng.uniform(-0.5, 0.5) * L[1]
+        ks = [rng.choice([-2, -1, -1, 1, 1, 2, 0]) for _ in range(3)]
+        u = np.array([[1, 0, 0], [ks[0], 1, 0], [ks[1], ks[2], 1]], dtype=float)
+        perm = rng.sample(range(3), 3)
+        u = u[perm][:, perm] if rng.random() < 0.5 else u
+        v = u @ v
+        if mode == 2:
+            m = np.array([[rng.gauss(0, 1) for _ in range(3)] for _ in range(3)])
+            qq, _ = np.linalg.qr(m)
+            v = v @ qq
+            if rng.random() < 0.5:
+                v[rng.randrange(3)] *= -1.0
+    origin = [rng.randint(-8, 8) / q for _ in range(3)] if grid else [rng.uniform(-5, 5) for _ in range(3)]
+    pbc = ALL_PBC[(it // 4) % 8] if it % 3 == 0 else rng.choice([(True, True, True), (True, True, False),
+                                                                  (True, False, True), (False, True, True)])
+    s = _shortest_combo(v, pbc) or min(L)
+    if grid:
+        cands = [c for c in (0.5, 0.75, 1.0, 1.25, 1.5, 1.75, 2.0, 2.5, 3.0) if 0.25 * s <= c <= 1.2 * s]
+        cutoff = rng.choice(cands or [1.0])
+    else:
+        cutoff = rng.choice([rng.uniform(0.3, 0.55), rng.uniform(0.45, 0.8), rng.uniform(0.8, 1.2)]) * s
+    # keep the exact model affordable: bins ~ extent / cutoff per axis, compared pairs ~ n^2 * images
+    ext = [float(np.abs(v[:, j]).sum()) + 2.02 * cutoff for j in range(3)]
+    while (ext[0] / cutoff + 1) * (ext[1] / cutoff + 1) * (ext[2] / cutoff + 1) > 40000:
+        cutoff *= 1.25 if not grid else 2.0
+        ext = [float(np.abs(v[:, j]).sum()) + 2.02 * cutoff for j in range(3)]
+    r = cutoff / min(_widths(v))
+    n = rng.randint(2, 12) if r > 1.2 else rng.randint(3, 36)
+    if grid:
+        rel = [[rng.randint(0, 8) / 8 for _ in range(3)] for _ in range(n)]
+    else:
+        rel = [[rng.choice([rng.random(), rng.random(), rng.random(), 0.0]) for _ in range(3)] for _ in range(n)]
+    pos = np.array(rel).reshape(-1, 3) @ v + np.array(origin)
+    return _case(v, origin, pos, pbc, cutoff, 'grid' if grid else 'float', rng.randint(1, 25), rng.randint(1, 25))
+
+
 def load_corpus():
     out = []
     if CORPUS.is_dir():
@@ -275,7 +434,13 @@ def _system(case):
     np = _np()
     import atomman as am
     box = am.Box(vects=np.array(case['vects']), origin=np.array(case['origin']))
-    atoms = am.Atoms(pos=np.array(case['pos']).reshape(-1, 3))
+    pos = np.array(case['pos']).reshape(-1, 3)
+    if case.get('dtype'):
+        # positions stored by Atoms in another dtype (Atoms keeps what it is given); values are exactly representable
+        conv = pos.astype(case['dtype'])
+        assert (conv.astype(float) == pos).all()
+        pos = conv
+    atoms = am.Atoms(pos=pos)
     return am.System(atoms=atoms, box=box, pbc=tuple(case['pbc']))
 
 
@@ -496,12 +661,12 @@ def _correspond_case(ctx, case, name, tmpdir, roundtrip):
     try:
         system = _system(case)
         nl = _build(case, system, init, delta, via)
+        rows = _rows(nl)
+        coord = [int(c) for c in nl.coord]
+        cap = int(nl.nlist.shape[1]) - 1
     except Exception as e:  # noqa
         ctx.violate('raises', f'neighbor list construction raised {type(e).__name__}: {e}', _payload(case))
         return
-    rows = _rows(nl)
-    coord = [int(c) for c in nl.coord]
-    cap = int(nl.nlist.shape[1]) - 1
     if out.startswith('err'):
         if case['regime'] == 'outside' and out == 'err:value':
             ctx.stats.case('corr:undefined-input', name, nontrivial=False)
@@ -539,11 +704,14 @@ def correspond(ctx):
         for name, case in load_corpus():
             _correspond_case(ctx, case, 'corpus:' + name, tmpdir, True)
         plan = [(gen_general, ctx.n(150, 4000)), (gen_grid, ctx.n(120, 3000)), (gen_edges, ctx.n(50, 1000)),
-                (gen_hunt, ctx.n(150, 4000)), (gen_outside, ctx.n(80, 2000))]
+                (gen_hunt, ctx.n(150, 4000)), (gen_outside, ctx.n(80, 2000)), (gen_shear, ctx.n(150, 4000)),
+                (gen_dense, ctx.n(15, 300))]
         for gen, count in plan:
             for it in range(count):
                 case = gen(rng, it)
                 _correspond_case(ctx, case, gen.__name__, tmpdir, it % 2 == 0)
+        for it in range(ctx.n(40, 1200)):
+            run_sequence(ctx, rng, it, 'corr', tmpdir)
     # text format: hand-made rows (long lists, empty lists, many digits) through dump/load of the model only
     _model_text_selfcheck(ctx, rng)
 
@@ -564,6 +732,295 @@ def _model_text_selfcheck(ctx, rng):
 
 
 # ----------------------------------------------------------------------------------------
+# operation sequences on ONE System object (and on copies / extensions / subsets derived from it)
+# ----------------------------------------------------------------------------------------
+SEQ_OPS = ['move_inplace', 'move_prop', 'move_scaled', 'set_all', 'set_all_scaled', 'view_all', 'swap', 'pbc',
+           'pbc_inplace', 'box_scaled', 'box_grow', 'box_direct', 'translate', 'extend', 'subset', 'copy', 'wrap',
+           'loadmodel', 'r0', 'cutoff', 'sizes', 'noop']
+
+
+def _state(system):
+    """what the neighbor list may depend on, read back from the object."""
+    np = _np()
+    return {'vects': np.array(system.box.vects, dtype=float).tolist(),
+            'origin': [float(x) for x in system.box.origin],
+            'pos': np.array(system.atoms.pos, dtype=float).reshape(-1, 3).tolist(),
+            'pbc': [bool(x) for x in system.pbc]}
+
+
+def _state_case(system, q):
+    st = _state(system)
+    st.update({'cutoff': float(q['cutoff']), 'regime': 'float', 'init': q['init'], 'delta': q['delta']})
+    return st
+
+
+def _gen_op(rng, name, st, q):
+    """explicit (replayable) description of one small change of the system / of the query."""
+    np = _np()
+    v = np.array(st['vects'])
+    o = np.array(st['origin'])
+    n = len(st['pos'])
+    rel1 = lambda: [rng.choice([rng.random(), rng.random(), rng.random(), 0.0]) for _ in range(3)]  # noqa
+    if name in ('move_inplace', 'move_prop'):
+        i = rng.randrange(n)
+        return {'op': name, 'i': i, 'p': (np.array(rel1()) @ v + o).tolist()}
+    if name == 'move_scaled':
+        return {'op': name, 'i': rng.randrange(n), 'rel': rel1()}
+    if name in ('set_all', 'view_all'):
+        if rng.random() < 0.5:      # small displacement of every atom, kept inside the cell
+            inv = np.linalg.inv(v)
+            rel = (np.array(st['pos']) - o) @ inv + np.array([[rng.uniform(-0.08, 0.08) for _ in range(3)]
+                                                              for _ in range(n)])
+            rel = np.clip(rel, 0.0, 1.0)
+        else:
+            rel = np.array([rel1() for _ in range(n)])
+        return {'op': name, 'pos': (rel @ v + o).tolist()}
+    if name == 'set_all_scaled':
+        return {'op': name, 'rel': [rel1() for _ in range(n)]}
+    if name == 'swap':
+        if n < 2:
+            return {'op': 'noop'}
+        i, j = rng.sample(range(n), 2)
+        return {'op': name, 'i': i, 'j': j}
+    if name == 'pbc':
+        new = list(st['pbc'])
+        k = rng.randrange(3)
+        new[k] = not new[k]
+        return {'op': name, 'pbc': new}
+    if name == 'pbc_inplace':
+        return {'op': name, 'k': rng.randrange(3)}
+    if name == 'box_scaled':
+        nv = v.copy()
+        k = rng.randrange(3)
+        how = rng.randrange(3)
+        if how == 0:
+            nv[k] *= rng.choice([0.7, 0.85, 1.2, 1.5])
+        elif how == 1:
+            nv[k] += rng.uniform(-0.6, 0.6) * nv[(k + 1) % 3]                # shear
+        else:
+            nv *= rng.choice([0.8, 1.25])
+        no = o + (np.array([rng.uniform(-1, 1) for _ in range(3)]) if rng.random() < 0.3 else 0.0)
+        return {'op': name, 'vects': nv.tolist(), 'origin': no.tolist()}
+    if name in ('box_grow', 'box_direct'):
+        return {'op': name, 'vects': (v * rng.choice([1.0625, 1.25, 1.5, 2.0])).tolist(), 'origin': o.tolist()}
+    if name == 'translate':
+        return {'op': name, 'shift': [rng.uniform(-3, 3) for _ in range(3)]}
+    if name == 'extend':
+        return {'op': name, 'pos': (np.array([rel1() for _ in range(rng.randint(1, 3))]) @ v + o).tolist()}
+    if name == 'subset':
+        if n < 3:
+            return {'op': 'noop'}
+        keep = sorted(rng.sample(range(n), rng.randint(max(1, n - 3), n - 1)))
+        return {'op': name, 'idx': keep}
+    if name == 'wrap':
+        i = rng.randrange(n)
+        return {'op': name, 'i': i, 'shift': [rng.choice([-2, -1, 1, 2]) if st['pbc'][k] and rng.random() < 0.7 else 0
+                                              for k in range(3)]}
+    if name == 'cutoff':
+        return {'op': name, 'cutoff': q['cutoff'] * rng.choice([0.6, 0.8, 0.9, 1.1, 1.3, 1.6])}
+    if name == 'sizes':
+        return {'op': name, 'init': rng.choice([None, 1, 2, 5, 25]), 'delta': rng.choice([None, 1, 3, 25])}
+    return {'op': name}
+
+
+def _apply_op(system, op, q, prev, tmpdir):
+    """perform the change on the real object; returns (system to go on with, rows a loaded model must equal or None)."""
+    np = _np()
+    import atomman as am
+    from copy import deepcopy
+    name = op['op']
+    if name == 'move_inplace':
+        system.atoms.pos[op['i']] = np.array(op['p'])
+    elif name == 'move_prop':
+        system.atoms.prop(key='pos', index=op['i'], value=np.array(op['p']))
+    elif name == 'move_scaled':
+        system.atoms_prop(key='pos', index=op['i'], value=np.array(op['rel']), scale=True)
+    elif name == 'set_all':
+        system.atoms.pos = np.array(op['pos'])
+    elif name == 'view_all':
+        system.atoms.view['pos'][:] = np.array(op['pos'])
+    elif name == 'set_all_scaled':
+        system.atoms_prop(key='pos', value=np.array(op['rel']), scale=True)
+    elif name == 'swap':
+        pos = system.atoms.pos
+        a, b = pos[op['i']].copy(), pos[op['j']].copy()
+        pos[op['i']], pos[op['j']] = b, a
+    elif name == 'pbc':
+        system.pbc = op['pbc']
+    elif name == 'pbc_inplace':
+        system.pbc[op['k']] = not system.pbc[op['k']]
+    elif name == 'box_scaled':
+        system.box_set(vects=np.array(op['vects']), origin=np.array(op['origin']), scale=True)
+    elif name == 'box_grow':
+        system.box_set(vects=np.array(op['vects']), origin=np.array(op['origin']))
+    elif name == 'box_direct':
+        system.box.set(vects=np.array(op['vects']), origin=np.array(op['origin']))
+    elif name == 'translate':
+        sh = np.array(op['shift'])
+        system.box_set(vects=system.box.vects, origin=system.box.origin + sh)
+        system.atoms.pos += sh
+    elif name == 'extend':
+        system = system.atoms_extend(am.Atoms(pos=np.array(op['pos']).reshape(-1, 3)))
+    elif name == 'subset':
+        system = system.atoms_ix[op['idx']]
+    elif name == 'copy':
+        system = deepcopy(system)
+    elif name == 'wrap':
+        system.atoms.pos[op['i']] += np.array(op['shift'], dtype=float) @ system.box.vects
+        system.wrap()
+    elif name == 'loadmodel':
+        if prev is not None:
+            path = os.path.join(tmpdir, 'seq_nl.txt')
+            prev[0].dump(path)
+            back = system.neighborlist(model=path)
+            return system, (_rows(back), [int(c) for c in back.coord])
+    elif name == 'r0':
+        try:
+            system.r0()
+        except Exception:       # noqa  (r0 is not part of this property; only its side effects matter here)
+            pass
+    elif name == 'cutoff':
+        q['cutoff'] = op['cutoff']
+    elif name == 'sizes':
+        q['init'], q['delta'] = op['init'], op['delta']
+    return system, None
+
+
+def _query(system, q, via):
+    import atomman as am
+    kw = {}
+    if q['init'] is not None:
+        kw['initialsize'] = q['init']
+    if q['delta'] is not None:
+        kw['deltasize'] = q['delta']
+    if via == 0:
+        nl = am.NeighborList(system=system, cutoff=q['cutoff'], **kw)
+    elif via == 1:
+        nl = system.neighborlist(cutoff=q['cutoff'], **kw)
+    else:
+        arr = am.nlist(system, q['cutoff'], **kw)
+        return None, [[int(j) for j in arr[i, 1:1 + int(arr[i, 0])]] for i in range(arr.shape[0])], \
+            [int(c) for c in arr[:, 0]], int(arr.shape[1]) - 1
+    return nl, _rows(nl), [int(c) for c in nl.coord], int(nl.nlist.shape[1]) - 1
+
+
+VIA = {0: 'NeighborList(system=, cutoff=)', 1: 'System.neighborlist(cutoff=)', 2: 'nlist(system, cutoff)'}
+
+
+def gen_seq_start(rng, it):
+    """start system of a sequence: moderately sized so that every query is cheap for the exact model."""
+    np = _np()
+    kind = ('orth', 'tilt', 'gen')[it % 3]
+    v = _rand_cell(rng, kind)
+    origin = [rng.uniform(-5, 5) for _ in range(3)]
+    pbc = ALL_PBC[(it // 3) % 8]
+    w = min(_widths(v))
+    cutoff = rng.uniform(0.25, 0.7) * w
+    n = rng.randint(2, 24)
+    rel = [[rng.random() for _ in range(3)] for _ in range(n)]
+    pos = np.array(rel) @ v + np.array(origin)
+    return _case(v, origin, pos, pbc, cutoff, 'float', rng.choice([None, 1, 3, 20]), rng.choice([None, 1, 2, 10]))
+
+
+def run_sequence(ctx, rng, it, mode, tmpdir, script=None):
+    """query -> one small change -> query ... on one object. `mode`: 'corr' compares every answer with the Lean model
+    evaluated on the state read back from the object at that moment, 'oracle' with the exact clauses.
+    `script` (replay): {'start': case, 'steps': [{'op':..., 'via':...}, ...]}."""
+    start = script['start'] if script else gen_seq_start(rng, it)
+    steps = script['steps'] if script else None
+    nsteps = len(steps) if script else rng.randint(3, 7)
+    q = {'cutoff': start['cutoff'], 'init': start['init'], 'delta': start['delta']}
+    system = _system(start)
+    done = []
+    answers = []          # (nl object, rows, coord) of every earlier query: must not change afterwards
+    prev = None
+    if script:
+        vias = script['vias']
+    else:
+        favoured = rng.choice([0, 1, 1, 2])
+        vias = [favoured if rng.random() < 0.7 else rng.randrange(3) for _ in range(nsteps + 1)]
+    payload = {'op': 'sequence', 'start': start, 'steps': [], 'vias': vias}
+    for k in range(nsteps + 1):
+        via = vias[k]
+        if k > 0:
+            if script:
+                op = steps[k - 1]
+            else:
+                op = _gen_op(rng, rng.choice(SEQ_OPS), _state(system), q)
+            done.append(op)
+            payload = {'op': 'sequence', 'start': start, 'steps': list(done), 'vias': vias}
+            try:
+                system, must = _apply_op(system, op, q, prev, tmpdir)
+            except Exception as e:      # noqa
+                if op['op'] == 'loadmodel':
+                    ctx.violate('loadmodel-raises', f'System.neighborlist(model=<file written by NeighborList.dump>) '
+                                f'raised {type(e).__name__}: {e}', payload)
+                elif len(ctx.notes) < 5:
+                    ctx.notes.append(f'sequence op {op["op"]} raised {type(e).__name__}: {str(e)[:80]}')
+                return
+            if must is not None and prev is not None and (must[0] != prev[1] or must[1] != prev[2]):
+                ctx.violate('roundtrip', f'System.neighborlist(model=file) after NeighborList.dump(file) gives '
+                            f'{must[0]} coord {must[1]}, dumped {prev[1]}', payload)
+                return
+        case = _state_case(system, q)
+        n = len(case['pos'])
+        try:
+            nl, rows, coord, cap = _query(system, q, via)
+        except Exception as e:  # noqa
+            ctx.violate('raises', f'{VIA[via]} raised {type(e).__name__}: {e} after operations '
+                        f'{[d["op"] for d in done]}', payload)
+            return
+        hist = [d['op'] for d in done]
+        what_q = f'{VIA[via]} (cutoff={q["cutoff"]!r}, initialsize={q["init"]}, deltasize={q["delta"]}) as query ' \
+                 f'{k + 1} on one object after operations {hist}'
+        if mode == 'oracle':
+            cls = exact_classes(case)
+            nin = sum(1 for c in cls.values() if c == 'in')
+            ctx.stats.case('oracle:sequence', (json.dumps(case, sort_keys=True), via), nontrivial=nin > 0,
+                           sample={'natoms': n, 'operations_before': hist, 'entry': VIA[via],
+                                   'pairs_below_cutoff': nin})
+            bad = clauses(case, rows, coord, cls)
+            if bad:
+                key, what = bad[0]
+                ctx.violate('seq-' + key, f'{what_q}: {what} [state of the object at the time of the call is in the replay]',
+                            payload)
+                return
+        else:
+            init, delta = q['init'] or 20, q['delta'] or 10
+            out = ctx.driver.ask(_line(case, init, delta))
+            if out.startswith('err'):
+                ctx.stats.case('corr:sequence-undefined', out, nontrivial=False)
+            else:
+                t = out.split()
+                mcap, near_cut, near_edge = int(t[1]), t[2] == '1', t[3] == '1'
+                mrows = _parse_rows([int(x) for x in t[6:]], n)
+                ctx.stats.case('corr:sequence', (_line(case, init, delta), via), nontrivial=any(mrows),
+                               sample={'natoms': n, 'operations_before': hist, 'entry': VIA[via]})
+                if not near_cut:
+                    if rows != mrows or coord != [len(r) for r in mrows]:
+                        diff = [i for i in range(n) if i >= len(rows) or rows[i] != mrows[i]][:3]
+                        ctx.disagree('sequence', f'{what_q}: rows differ from the model evaluated on the current state '
+                                     f'at atoms {diff}: implementation {[rows[i] for i in diff if i < len(rows)]}, model '
+                                     f'{[mrows[i] for i in diff]}', payload)
+                        return
+                    if cap != mcap:
+                        ctx.disagree('capacity', f'{what_q}: final storage width {cap} != model {mcap}', payload)
+                        return
+        if nl is not None:
+            prev = (nl, rows, coord)
+            answers.append(prev)
+    for nl, rows, coord in answers:
+        try:
+            now = (_rows(nl), [int(c) for c in nl.coord])
+        except Exception as e:  # noqa
+            now = ('raised', type(e).__name__)
+        if now != (rows, coord):
+            ctx.violate('aliased', f'a NeighborList returned earlier changed after later operations / queries on the '
+                        f'system: was {rows}, now {now[0]}', payload)
+            return
+
+
+# ----------------------------------------------------------------------------------------
 # search: the property's clauses on the real code
 # ----------------------------------------------------------------------------------------
 def _search_case(ctx, case, kind, name, full):
@@ -572,11 +1029,12 @@ def _search_case(ctx, case, kind, name, full):
     try:
         system = _system(case)
         nl = _build(case, system, init, delta, 0)
+        rows = _rows(nl)
+        coord = [int(c) for c in nl.coord]
     except Exception as e:  # noqa
-        ctx.violate('raises', f'neighbor list construction raised {type(e).__name__}: {e}', _payload(case))
+        ctx.violate('raises', f'neighbor list construction raised {type(e).__name__}: {e} [{kind}; natoms={n}, '
+                    f'pbc={case["pbc"]}, initialsize={init}, deltasize={delta}]', _payload(case))
         return
-    rows = _rows(nl)
-    coord = [int(c) for c in nl.coord]
     cls = exact_classes(case)
     nin = sum(1 for k in cls.values() if k == 'in')
     ctx.stats.case('oracle:' + kind, (name, json.dumps(case, sort_keys=True)), nontrivial=nin > 0,
@@ -591,17 +1049,15 @@ def _search_case(ctx, case, kind, name, full):
         alt = [(1, 1), (25, 25), (None, None)][(n + init) % 3]
         try:
             nl2 = _build(case, system, alt[0], alt[1], 1)
+            rows2 = _rows(nl2)
         except Exception as e:  # noqa
             ctx.violate('raises', f'System.neighborlist(initialsize={alt[0]}, deltasize={alt[1]}) raised '
                         f'{type(e).__name__}: {e}', _payload(case, init2=alt[0], delta2=alt[1]))
             return
-        rows2 = _rows(nl2)
         if rows2 != rows or [int(c) for c in nl2.coord] != coord:
             ctx.violate('storage', f'result depends on the storage sizes: initialsize/deltasize {init}/{delta} gives '
                         f'{rows}, {alt[0]}/{alt[1]} gives {rows2}', _payload(case, init2=alt[0], delta2=alt[1]))
             return
-        if getattr(system, 'neighbors', nl2) is not nl2 and hasattr(system, 'neighbors'):
-            pass
         # lists agree with am.dmag of the real code (outside the tie band)
         if n >= 2:
             _dmag_crosscheck(ctx, case, system, rows, cls)
@@ -630,12 +1086,18 @@ def search(ctx, broken):
     for name, case in load_corpus():
         _search_case(ctx, case, 'corpus', name, True)
     mult = 3 if broken else 1
-    plan = [('hunt', gen_hunt, ctx.n(5000, 120000) * mult), ('general', gen_general, ctx.n(250, 8000) * mult),
+    plan = [('dense', gen_dense, ctx.n(40, 1500) * mult), ('shear', gen_shear, ctx.n(600, 20000) * mult),
+            ('hunt', gen_hunt, ctx.n(5000, 120000) * mult), ('general', gen_general, ctx.n(250, 8000) * mult),
             ('grid', gen_grid, ctx.n(250, 8000) * mult), ('edges', gen_edges, ctx.n(100, 3000) * mult)]
     for kind, gen, count in plan:
         for it in range(count):
             case = gen(rng, it)
             _search_case(ctx, case, kind, kind, full=(kind != 'hunt' or it % 8 == 0))
+            if len(ctx.violations) >= 6:
+                return
+    with tempfile.TemporaryDirectory(prefix='c03_') as tmpdir:
+        for it in range(ctx.n(150, 5000) * mult):
+            run_sequence(ctx, rng, it, 'oracle', tmpdir)
             if len(ctx.violations) >= 6:
                 return
     if ctx.thorough:
@@ -662,6 +1124,12 @@ def _exhaustive_small(ctx):
 
 def replay(ctx, payload):
     r = payload.get('replay', {})
+    if r.get('op') == 'sequence':
+        with tempfile.TemporaryDirectory(prefix='c03_') as tmpdir:
+            run_sequence(ctx, random.Random(0), 0, 'oracle', tmpdir, script=r)
+            if ctx.driver is not None:
+                run_sequence(ctx, random.Random(0), 0, 'corr', tmpdir, script=r)
+        return
     case = r.get('case')
     if not case:
         search(ctx, True)
